@@ -50,6 +50,12 @@ CLAIMS["C02"] = dict(
   technique="difference-constraint bounds prover, decode-nil taint analysis, assertion/ok-discard lints over the reachable call graph",
   ref="DESIGN.md §3 C02")
 
+CLAIMS["C14"] = dict(
+  text="Table agreement and converter coverage: every purl type the code can emit or declares is accepted by the library's own validType; for each of the registered extractors the single-value assertions of ToPURL/Ecosystem on Package.Metadata are matched by every Package its Extract code allocates; every allocated Package gets a non-empty Locations (3 genuine exceptions recorded as known findings: dotnetpe x2, chrome/extensions); the proto converters read every source field and fill each like-named field, the SBOM converters write ToPURL(pkg).String() of the package being converted and ToCDX copies name, version and all locations; the index is keyed by the URL's own type/name; bounds discipline over purl, packageindex, converter, binary/proto. Level 'other': necessary conditions; non-empty names, percent-encoding round trips and third-party SBOM library behaviour are not decided.",
+  note="Trusted: go/ssa, CHA reachability from Extract methods, constant evaluation of stored types (with the one path refinement documented in DESIGN.md), generated *.pb.go excluded.",
+  technique="table agreement (constants vs. map literal), writer/reader type agreement over allocations, field-coverage analysis of converters",
+  ref="DESIGN.md §3 C14")
+
 NA = {}
 
 
